@@ -110,4 +110,155 @@ class Pack(Contract):
                     ROWLEN, lambda x: ite(x < k * 4, self.elem(a, ctx['row_i'], x), 0), 'bytes')})}
 
 
-CONTRACTS = [Unpack(), Pack()]
+
+CODE_AREA = 0x8000 - 0x4300
+
+
+class GetBytesFromCode(Contract):
+    abstract_result = True
+    """get_bytes_from_code(code): the 0x3d00-byte code area -- compressed (':c:' header + stream) iff that is
+    shorter than the text, else the raw text; zero padded; NEVER truncated or grown: code that does not fit is refused."""
+    target = 'pico8.game.formatter.p8png:get_bytes_from_code'
+    mode = 'lia'
+    property_ids = ('C04', 'C05')
+    raises_in_ensures = ('InvalidP8PNGError',)
+    subclass_of = {'InvalidP8PNGError': ('InvalidP8DataError', 'Error', 'Exception')}
+    # nothing about the stream content is needed here (only that compress_code returns a bytearray)
+    assume_clauses = {'pico8.game.compress:compress_code': ()}
+
+    def setup(self, K):
+        a = {'code': K.bytes('code')}
+        self.a = a
+        return a
+
+    def requires(self, K, a):
+        return SSeq.of(a['code']).n <= 0xffff
+
+    def witness(self, K):
+        return {'code': SSeq.of(b'print("hello") print("hello") print("hello")\n')}
+
+    def examples(self, rnd):
+        import hashlib
+        yield {'code': SSeq.of(b'')}
+        yield {'code': SSeq.of(b'a')}
+        yield {'code': SSeq.of(b'x=1\n')}
+        for n in (CODE_AREA - 1, CODE_AREA, CODE_AREA + 1, CODE_AREA + 500):
+            buf, i = b'', 0                    # incompressible text of exactly n bytes (no NUL)
+            while len(buf) < n:
+                buf += hashlib.sha256(str((n, i)).encode()).digest().replace(b'\0', b'\1')
+                i += 1
+            yield {'code': SSeq.of(buf[:n])}
+        for _ in range(20):
+            n = rnd.randint(0, 300)
+            yield {'code': SSeq.of(bytes(rnd.choice(b'abc =\n()\x80') for _ in range(n)))}
+
+    def result(self, K, a):
+        return K.bytearray('code_area')
+
+    def ensures(self, K, a, old, res):
+        code = SSeq.of(a['code'])
+        loc = K.st.locals
+        if 'compressed_bytes' not in loc:
+            # call site / judging a real run: only what does not depend on the (deterministic but abstract) compressor
+            if res.raised():
+                return [('refused-only-if-the-raw-text-does-not-fit', code.n > CODE_AREA)] if '__observed__' in loc else []
+            r = K.seq(res.value)
+            return [('area-size', r.n == CODE_AREA)]
+        comp = K.seq(loc['compressed_bytes'])
+        use_c = comp.n < code.n
+        size = ite(use_c, comp.n + 8, code.n)
+        if res.raised():
+            return [('refused-only-when-it-does-not-fit', size > CODE_AREA)]
+        r = K.seq(res.value)
+        hdr = [58, 99, 58, 0, code.n // 256, code.n % 256, 0, 0]
+        want = seq_of(CODE_AREA, lambda i: ite(i >= size, 0, ite(use_c, ite(i < 8, SSeq.of(hdr, 'list').get(i), comp.get(i - 8)),
+                                                                 code.get(i))), 'bytes')
+        return [('fits', size <= CODE_AREA), ('area-size(never truncated, never grown)', r.n == CODE_AREA),
+                ('layout(header+stream or raw text, zero padded)', seq_eq(r, want))]
+
+
+class GetCodeFromBytes(Contract):
+    """get_code_from_bytes(codedata, version): raw NUL-terminated text (+ the newline the reader appends), or the
+    decompressed text; CR normalised to space."""
+    target = 'pico8.game.formatter.p8png:get_code_from_bytes'
+    mode = 'lia'
+    property_ids = ('C04', 'C05')
+
+    variants = ('raw', 'compressed')
+
+    @property
+    def ghost_args(self):
+        a = self.a
+        return {'pico8.game.compress:decompress_code': lambda ex, st, bound: {k: v for k, v in a.items() if k.startswith('__')}}
+
+    def setup(self, K, variant):
+        from contracts.compress import Stream, stream_of
+        if variant == 'raw':
+            cd = V.byte_seq('codedata', CODE_AREA, 'list')
+            a = {'codedata': cd, 'version': K.int('version', 0, 255)}
+        else:
+            a = Stream.fresh(K)
+            st = stream_of(a)
+            a['__hl'] = K.int('hl', 0, 0xffff)
+            hl = a['__hl']
+            pad = V.byte_seq('pad')
+            hdr = [58, 99, 58, 0, hl // 256, hl % 256, 0, 0]
+
+            def cdf(i):
+                r = ite(i < 8 + st.n, st.S.get(i - 8), pad.get(i))
+                for k in range(7, -1, -1):
+                    r = ite(i == k, hdr[k], r)
+                return r
+            a['codedata'] = SSeq(CODE_AREA, cdf, 'list')
+            a['version'] = K.int('version', 1, 255)
+        self.a = a
+        return a
+
+    def witness(self, K, variant):
+        if variant == 'raw':
+            return {'codedata': SSeq.of(list(b'x=1\r\ny=2') + [0] * (CODE_AREA - 9), 'list'), 'version': 5}
+        from contracts.compress import Decompress
+        a = Decompress().witness(K)
+        cd = SSeq.of(a['codedata'])
+        a['codedata'] = SSeq.of([cd.get(i) for i in range(cd.n)] + [0] * (CODE_AREA - cd.n), 'list')
+        a['version'] = 8
+        return a
+
+    def is_compressed(self, a):
+        cd = SSeq.of(a['codedata'])
+        return AND(NOT(a['version'] == 0), cd.get(0) == 58, cd.get(1) == 99, cd.get(2) == 58, cd.get(3) == 0)
+
+    def requires(self, K, a):
+        cd = SSeq.of(a['codedata'])
+        if '__S' in a:
+            from contracts.compress import Decompress
+            return AND(cd.n == CODE_AREA, NOT(a['version'] == 0), Decompress().requires(K, a))
+        return AND(cd.n == CODE_AREA, NOT(self.is_compressed(a)))
+
+    def ensures(self, K, a, old, res):
+        if not res.returned:
+            return [('no-exception', False)]
+        cd = SSeq.of(a['codedata'])
+        clen, code, csize = res.value
+        code = SSeq.of(code)
+        if '__S' in a:
+            from contracts.compress import stream_of
+            from specs import cspec
+            st = stream_of(a)
+            n = cspec.unsuffix_len(st.T, a['__hl'])
+            return [('text-is-CSpec-text(CR->space)', seq_eq(code, seq_of(n, lambda i: ite(st.T.get(i) == 13, 32, st.T.get(i)), 'bytes'))),
+                    ('code_length', val_eq(clen, a['__hl']))]
+        # raw: up to the first NUL (whole area if there is none), plus the newline the reader appends
+        return [('length-is-first-NUL', AND(clen >= 0, clen <= CODE_AREA, forall(0, clen, lambda i: NOT(cd.get(i) == 0)),
+                                            OR(clen == CODE_AREA, cd.get(clen) == 0))),
+                ('text-is-raw-prefix+newline(CR->space)', seq_eq(code, seq_of(
+                    clen + 1, lambda i: ite(i == clen, 10, ite(cd.get(i) == 13, 32, cd.get(i))), 'bytes'))),
+                ('not-compressed', SOptNone(csize))]
+
+
+def SOptNone(v):
+    from pyvc.values import SOpt
+    return v is None or (isinstance(v, SOpt) and v.isnone)
+
+
+CONTRACTS = [Unpack(), Pack(), GetBytesFromCode(), GetCodeFromBytes()]
